@@ -211,10 +211,10 @@ Fixpoint sorted_items (l : list item) : bool :=
 
 (* [out] is what a sort of [input] followed by truncation to [MAXLIST] may
    return, and [excluded] the number left out *)
-Definition check_sort_truncate (input out : list item) (excluded : nat) : bool :=
+Definition check_sort_truncate (input out : list item) (excluded : N) : bool :=
   let n := List.length input in
   Nat.eqb (List.length out) (Nat.min MAXLIST n)
-  && Nat.eqb excluded (n - Nat.min MAXLIST n)
+  && N.eqb excluded (N.of_nat (n - Nat.min MAXLIST n))
   && sorted_items out
   && match remove_all out input with
      | None => false
@@ -282,7 +282,7 @@ Inductive scase :=
 | CSort (input out : list item)
 (* Manager.List on a session whose conflict / problem list was [input]:
    the list returned and the Excluded... counter *)
-| CList (input out : list item) (excluded : nat)
+| CList (input out : list item) (excluded : N)
 (* a Manager holding [ss]; queries answered by Manager.List; for label
    queries also the real selector's Matches on every session *)
 | CSelect (ss : list session) (qs : list (query * qres))
@@ -309,7 +309,7 @@ Definition model_agrees_c40 (c : scase) : bool :=
   (* the paths (not the tags: elements with equal paths may come in any order) *)
   | CSort input out => items_keys_eqb (sort_items input) out
   | CList input out ex =>
-    let '(o, e) := sort_truncate input in items_keys_eqb o out && Nat.eqb e ex
+    let '(o, e) := sort_truncate input in items_keys_eqb o out && N.eqb (N.of_nat e) ex
   | CSelect ss qs => forallb (fun p : query * qres => qres_eqb (run_query ss (fst p)) (snd p)) qs
   | CMatch sel ls r => Bool.eqb (sel_matches sel ls) r
   end.
